@@ -46,7 +46,7 @@ def valid_case(rng, several=False):
     return case
 
 
-FAULTS = ["axial-regions-cover-core", "power-wrong-count-later-assembly", "power-short-later-assembly", "duct-zero-wall", "pins-do-not-fit", "wire-too-thick", "clad-too-thick", "zero-pin-pitch", "negative-pin-diameter", "zero-duct-ftf",
+FAULTS = ["zero-wire-pitch", "axial-regions-cover-core", "power-wrong-count-later-assembly", "power-short-later-assembly", "duct-zero-wall", "pins-do-not-fit", "wire-too-thick", "clad-too-thick", "zero-pin-pitch", "negative-pin-diameter", "zero-duct-ftf",
           "duct-ge-pitch", "unequal-outer-ducts", "axial-regions-overlap", "axial-region-inverted", "missing-bc", "negative-flowrate",
           "unknown-material", "unknown-correlation", "negative-power", "power-gap-between-cells", "power-wrong-pin-count",
           "flow-gap-no-bypass", "zero-core-length", "odd-duct-values", "zero-step-request"]
@@ -109,6 +109,11 @@ def inject(rng, case, fault, lowfid=False, near=False, excess=0.01):
         L = c['core']['length']
         t['AxialRegion'] = [dict(name='lower', z_lo=0.0, z_hi=0.6 * L, vf_coolant=0.3, model='simple'),
                             dict(name='upper', z_lo=0.5 * L, z_hi=L, vf_coolant=0.3, model='simple')]
+    elif fault == "zero-wire-pitch":
+        # a wire of positive diameter that never winds round the pin (both zero = bare rods is a valid input)
+        if t.get('use_low_fidelity_model') or t['wire_diameter'] <= 0:
+            return None
+        t['wire_pitch'] = 0.0
     elif fault == "axial-regions-cover-core":
         # unrodded regions from inlet to outlet of a pin-bundle assembly: no room for the (single) rodded region
         if t.get('use_low_fidelity_model'):
